@@ -353,6 +353,7 @@ type refOut struct {
 	memlen int
 	skipGas bool
 	overlap bool // an identity call whose output area rewrote its own input window
+	otherPre bool // a call to a precompile other than identity (not in the Coq machines)
 	calls   int
 }
 
@@ -387,7 +388,8 @@ func refRun(code, input []byte, defined *[256]bool, maxSteps int) (out refOut) {
 	var rd []byte
 	hazard := false
 	ncalls := 0
-	defer func() { out.overlap = hazard; out.calls = ncalls }()
+	otherPre := false
+	defer func() { out.overlap = hazard; out.calls = ncalls; out.otherPre = otherPre }()
 	gasyFlag = false
 	refMemLen = 0
 	pop := func() *big.Int { v := stack[len(stack)-1]; stack = stack[:len(stack)-1]; return v }
@@ -528,6 +530,7 @@ func refRun(code, input []byte, defined *[256]bool, maxSteps int) (out refOut) {
 			if addr.Cmp(big.NewInt(2)) == 0 {
 				h := sha256.Sum256(in)
 				out = h[:]
+				otherPre = true
 			}
 			if retSize.Sign() > 0 {
 				n := int(retSize.Int64())
@@ -1046,6 +1049,8 @@ func (g *gen) junk() []byte {
 
 // programs around the return-data buffer: input written to memory, CALL/STATICCALL to the identity (or SHA-256)
 // precompile, the former input area overwritten by memory opcodes, RETURNDATASIZE / RETURNDATACOPY, dump
+var genOtherPre bool // the last genRetData program calls SHA-256 (not in the Coq machines)
+
 func genRetData(r *hx.Rng, f vmx.Fork, overlap bool) []byte {
 	g := &gen{r: r, mcopy: f.P022, push0: f.P022}
 	// touch the whole dump-free area first so that later writes do not reallocate the memory store
@@ -1067,8 +1072,10 @@ func genRetData(r *hx.Rng, f vmx.Fork, overlap bool) []byte {
 	}
 	addr := 4
 	outLen := inSize
+	genOtherPre = false
 	if r.Intn(4) == 0 {
 		addr, outLen = 2, 32
+		genOtherPre = true
 	}
 	retOff, retSize := 0x200+r.Intn(64), []int{0, outLen, outLen / 2, outLen + 7}[r.Intn(4)]
 	if overlap && inSize > 1 { // output area shifted inside the input window
@@ -1641,9 +1648,13 @@ func main() {
 				res.Violate(key, what, in)
 			}
 		}
-		modelOK := ref.calls == 0 && ref.memlen <= 1<<16 && (ref.kind != "skip" || ref.skipGas || gas <= 39000)
+		modelOK := !ref.otherPre && ref.memlen <= 1<<16 && (ref.kind != "skip" || ref.skipGas || gas <= 39000)
 		if toModel && len(code) < 1400 && modelOK {
-			addCase(f, fmt.Sprintf("CProg %s %s %d %s (%s)", hx.CoqHex(code), hx.CoqHex(input), gas, envCoq(gas), ob.coq()), in)
+			ctor := "CProg"
+			if ref.overlap { // the Yellow-Paper machine is expected to differ: known finding
+				ctor = "CProgImpl"
+			}
+			addCase(f, fmt.Sprintf("%s %s %s %d %s (%s)", ctor, hx.CoqHex(code), hx.CoqHex(input), gas, envCoq(gas), ob.coq()), in)
 		}
 		if kind == "structured" && ob.class == "ok" && len(ob.ret) > dumpBase {
 			res.Sample(in)
@@ -1685,7 +1696,7 @@ func main() {
 		if kind == "soup" && rng.Intn(2) == 0 {
 			gas = []uint64{0, 1, 2, 5, 20, 100, 1000, 100000}[rng.Intn(8)]
 		}
-		toModel := !hasCall
+		toModel := !(hasCall && genOtherPre)
 		ob := progCase(f, code, input, gas, kind, toModel)
 		// gas boundary: exactly enough, one short, half
 		if ob.class == "ok" && rng.Intn(3) == 0 && !strings.Contains(kind, "soup") && !hasCall {
